@@ -192,7 +192,16 @@ func genBatch(r *rand.Rand, mode string) (BatchCfg, *BatchScript) {
 	if mode == "bigstop" {
 		s.Items[1].Execs[0].Out = "err"
 	}
-	if (mode == "continue" || mode == "stop") && c.Shape == "results" && c.ExSty == "r" && !c.Fb && c.Items > 0 && r.Intn(2) == 0 {
+	if (mode == "continue" || mode == "stop" || mode == "rebudget") && c.Shape == "results" && c.WarmN == 0 && r.Intn(3) == 0 {
+		c.PrepN = true
+	}
+	if mode == "rebudget" && r.Intn(2) == 0 {
+		c.WarmN, c.PrepN = 0, c.Shape == "results"
+	}
+	if (mode == "continue" || mode == "stop") && c.Shape == "results" && c.Items > 1 && r.Intn(4) == 0 {
+		c.NilItem = 1 + r.Intn(c.Items)
+	}
+	if (mode == "continue" || mode == "stop") && c.Shape == "results" && c.ExSty == "r" && !c.Fb && c.Items > 0 && c.NilItem == 0 && r.Intn(2) == 0 {
 		// some items are error Results already when prep returns them
 		for i := 1; i <= c.Items; i++ {
 			if r.Intn(4) == 0 {
